@@ -283,7 +283,12 @@ std::string hx_run(const std::string &line, std::string &oracle)
             orc = l.substr(7);
     }
     bool died = !(WIFEXITED(status) && WEXITSTATUS(status) == 0);
-    if (died) {
+    if (died && WIFSIGNALED(status) && WTERMSIG(status) == SIGALRM) {
+        // the child's watchdog fired (slow sanitizer build / loaded machine): inconclusive, not a crash
+        stat("child_timeouts");
+        if (out.empty())
+            out = "TIMEOUT:" + stage;
+    } else if (died) {
         std::string why = WIFSIGNALED(status) ? "signal " + std::to_string(WTERMSIG(status))
                                               : "exit " + std::to_string(WEXITSTATUS(status));
         // the sanitizer's first diagnostic line, if any
@@ -527,7 +532,7 @@ void hx_gen(Rng &r, const std::string &tier)
     crafted(cr);
     for (auto &c : cr)
         emit("ld " + tohex(c.second), c.first);
-    for (long n : {100L, 1000L})
+    for (long n : {100L, 400L})
         emit("deep " + std::to_string((int)SYMENGINE_SIN) + " " + std::to_string(n), "deep-ok");
     emit("deep " + std::to_string((int)SYMENGINE_SIN) + " 200000", "deep-bomb");
     ExprGen g(r);
@@ -578,4 +583,4 @@ void hx_gen(Rng &r, const std::string &tier)
             emit("ld " + tohex(b), "random");
     }
 }
-// (c19_gen.h revision 4: guarded generator, ASLR off)
+// (c19_gen.h revision 6: watchdog timeouts are inconclusive)
